@@ -58,7 +58,24 @@ theorem exposed_spec (k : Kind) (m base : Xml) (hs : shaped k m = true) (hb : m.
 /-- `inspect()` never raises on a shaped message (of a mergeable class) -/
 theorem inspect_total (k : Kind) (m : Xml) (hs : shapedInspect k m = true) :
     ∃ ls, inspectLines k m = .ok ls := by
-  simp only [shapedInspect, Bool.and_eq_true] at hs
+  by_cases hkro : k = .RunningOrder
+  · subst hkro
+    have hs' : ((m.find "roCreate").bind (·.find "roSlug")).isSome = true := hs
+    cases hb : m.find "roCreate" with
+    | none => simp [hb] at hs'
+    | some base =>
+      simp only [hb, Option.bind_some] at hs'
+      obtain ⟨slug, hslug⟩ := Option.isSome_iff_exists.mp hs'
+      have hb' : m.find Kind.RunningOrder.baseTag = some base := hb
+      unfold inspectLines
+      simp only [hb', hslug]
+      exact ⟨_, rfl⟩
+  have hs : (shaped k m &&
+      (k != .RunningOrderEnd || ((m.find "roDelete").bind (·.find "roID")).isSome)) = true := by
+    unfold shapedInspect at hs
+    rw [if_neg (by simpa using hkro)] at hs
+    exact hs
+  simp only [Bool.and_eq_true] at hs
   obtain ⟨hsh, hro⟩ := hs
   obtain ⟨base, hb⟩ : ∃ base, m.find k.baseTag = some base := by
     cases hb : m.find k.baseTag with
@@ -105,7 +122,18 @@ theorem inspect_mentions (k : Kind) (m base : Xml) (ls : List Line) (hb : m.find
   unfold mentionIds at hx
   cases k
   case StorySend => exact absurd rfl hk
-  case RunningOrder => simp [namedOf] at hx
+  case RunningOrder =>
+    simp only [beq_self_eq_true, if_true, List.mem_map] at hx
+    obtain ⟨s, hs, rfl⟩ := hx
+    simp only at h
+    split at h
+    · cases h
+    · cases h
+      refine ⟨("STORY: ", pyStr (keyOf "story" s)), ?_, rfl⟩
+      apply List.mem_cons_of_mem
+      simp only [List.mem_map]
+      exact ⟨keyOf "story" s, ⟨s, hs, rfl⟩, rfl⟩
+  all_goals (try rw [if_neg (by decide)] at hx)
   case MetaDataReplace => simp [namedOf] at hx
   case ReadyToAir => simp [namedOf] at hx
   case RunningOrderReplace => simp [namedOf] at hx
